@@ -23,6 +23,42 @@ CHECKS = {
         note=E1_NOTE,
         technique="stateless model checking of the implementation (preemption-bounded DFS over thread schedules, bytecode-level scheduling points)",
     ),
+    "C04": dict(
+        engine="E1", category="model_checking",
+        text=("Same stateless model checking of the real engine as C01 with the exactly-once oracle: per execution every node's start count is <= 1, "
+              "after a normal return the executed set equals the ancestors of the requested output, and the queue is drained (unfinished_tasks == 0, no items left). "
+              "API level: every 3-call plan over edge kinds x every output specification (none, literals only, single node, lists, nested containers, a bare Literal with dependencies), "
+              "where every call the output does not need raises if it is ever run."),
+        design_ref="DESIGN.md section 4, C04", note=E1_NOTE,
+        technique="stateless model checking of the implementation (preemption-bounded DFS, bytecode-level points) + bounded-exhaustive plan/output enumeration",
+    ),
+    "C06": dict(
+        engine="E1", category="model_checking",
+        text=("Stateless model checking of the real engine over fault patterns: every non-empty subset of nodes of every 3-node DAG raises "
+              "(Exception, custom BaseException, SystemExit), max_errors in {0,1,None}, 1-2 workers (3 in thorough), all queue kinds; API level with CallError identity checks. "
+              "Oracle per execution: no descendant of a failed call starts; run raises; the error names a call that raised, __cause__ is that very exception object; "
+              "with one worker it is the first failure."),
+        design_ref="DESIGN.md section 4, C06", note=E1_NOTE,
+        technique="stateless model checking of the implementation over enumerated fault patterns",
+    ),
+    "C07": dict(
+        engine="E1", category="model_checking",
+        text=("Deadlock / livelock / after-return oracles of the explorer on corner configurations (0-2 node graphs with 1..n+2 workers, BaseException in workers, "
+              "all queue kinds, every instruction of the pool set-up/tear-down code a scheduling point), bounded-exhaustive cycle enumeration at the API "
+              "(cycles of length 1-3 through every edge kind, with/without registry, needed/unneeded by the output), and the binding of the shim threading layer "
+              "(litmus suite explored completely and compared with real threads; free-running conformance runs of the same harness bodies)."),
+        design_ref="DESIGN.md section 4, C07; section 3 E1 binding", note=E1_NOTE,
+        technique="stateless model checking (deadlock/livelock detection under a controlled scheduler) + bounded-exhaustive cycle enumeration",
+    ),
+    "C17": dict(
+        engine="E1", category="model_checking",
+        text=("Stateless model checking with asynchronous-exception injection: one KeyboardInterrupt is raised in the calling thread at every scheduling point "
+              "(every instruction of the worker-pool creation / shutdown code, every blocking wait such as queue.join) at which a call is in flight, combined with "
+              "preemption-bounded schedules. Oracle: run terminates with KeyboardInterrupt, in-flight calls complete, no call is dequeued after the caller began joining, "
+              "no call is dequeued+started after the interrupt when the caller ran whenever it could, observer exited, every thread exits, nothing runs after return."),
+        design_ref="DESIGN.md section 4, C17", note=E1_NOTE + " A signal that lands inside C code is represented by the nearest bytecode boundary / modelled blocking wait of the calling thread.",
+        technique="stateless model checking with interrupt injection at every scheduling point of the calling thread",
+    ),
 }
 
 NOT_APPLICABLE = {
